@@ -29,9 +29,9 @@ RULE = ("graphs = all step sets enumerated by TLC from MC_Validate.tla within th
         "distinct (accept, return, role, scope, skip) signatures with >=1 step")
 
 QUICK = ["quick_core", "quick_kinds", "quick_skips", "quick_handlers"]
-THOROUGH = ["thorough_core", "thorough_kinds", "thorough_unions", "thorough_skips", "thorough_handlers",
+THOROUGH = ["thorough_core_acc2", "thorough_core_ret2", "thorough_kinds", "thorough_unions", "thorough_skips", "thorough_handlers",
             "thorough_handlers3"]
-CHUNK = 120000          # traces per observer run
+CHUNK = 60000           # traces per observer run
 MAX_PER_INSTANCE = 400000   # beyond this an instance is sampled by seed (thorough only)
 
 
@@ -139,12 +139,20 @@ def run(chk):
     drift = Counter()
     n_conf = 0
     viol_seen = Counter()
-    for c0 in range(0, len(traces), CHUNK):
-        chunk = traces[c0:c0 + CHUNK]
-        batch = {"inst": insts, "traces": chunk}
-        verdicts, _ = _obslib.observe(chk, "obs/Obs_C23.tla", "obs/Obs_C23.cfg", batch, libs=["config"],
-                                      name="obs_%d" % (c0 // CHUNK), workers=chk.pick(4, 8),
-                                      jvm=chk.pick(_obslib.FAST_JVM, _obslib.LONG_JVM))
+    chunks = [traces[c0:c0 + CHUNK] for c0 in range(0, len(traces), CHUNK)]
+    from concurrent.futures import ThreadPoolExecutor
+
+    def ob(k):
+        return _obslib.observe(chk, "obs/Obs_C23.tla", "obs/Obs_C23.cfg", {"inst": insts, "traces": chunks[k]},
+                               libs=["config"], name="obs_%d" % k, workers=chk.pick(4, 4),
+                               jvm=chk.pick(_obslib.FAST_JVM, _obslib.LONG_JVM), record=False)
+
+    with ThreadPoolExecutor(max_workers=3) as ex:
+        observed = list(ex.map(ob, range(len(chunks))))
+    for k, chunk in enumerate(chunks):
+        c0 = k * CHUNK
+        verdicts, ores = observed[k]
+        chk.record_tlc("obs_%d" % k, ores, count=False)
         for i, tr in enumerate(chunk, 1):
             clause, _l, feature, conf, why, hitl = verdicts[i]
             clause_count[clause] += 1
